@@ -22,7 +22,7 @@ sys.path.insert(0, os.path.dirname(os.path.abspath(__file__)))
 import corpus  # noqa: E402
 import symes  # noqa: E402
 import symvm  # noqa: E402
-from corpus import (Alt, Backref, Cls, Dot, End, Esc, Group, Lit, Look, Quant, Rep, Seq, Start, WB, Case)  # noqa: E402
+from corpus import (Alt, Backref, Cls, Dot, End, Esc, Group, Lit, Look, Opaque, Quant, Rep, Seq, Start, WB, Case)  # noqa: E402
 
 S = Seq
 L = Lit
@@ -60,6 +60,13 @@ def smt_cases():
     add(S([Group(Alt([L(0xD800), a]), cap=False), b]), "", "alt_lone_surrogate_or_a")
     add(S([Group(Alt([L(0x101), a]), cap=False), b]), "", "alt_nonascii_literal_or_a", widths=(1,))
     add(S([Look(L(0x20AC), neg=True), a]), "", "neg_lookahead_nonascii_literal", widths=(1,))
+    # a loop over a multi-character literal group steps by whole iterations
+    add(S([Quant(Group(S(lits("ab")), cap=False), 0, None), b]), "", "star_of_literal_group_then_b", nmax=4, widths=(1,))
+    add(S([Quant(Group(S(lits("ab")), cap=False), 0, None, False), b]), "", "lazy_star_of_literal_group_then_b", widths=(1,))
+    add(S([Start(), Quant(Group(S([L(0xE9), L("x")]), cap=False), 1, None), L(0xE9)]), "", "plus_of_2char_group_multibyte", widths=(1, 2))
+    # class strings under v+i: the case-insensitive lowering of \q{...} members
+    add(S([Opaque("[\\q{a\u00e9}]", S([Alt([L("a"), L("A")]), Alt([L(0xE9), L(0xC9)])]))]), "iv", "qstring_latin1_icase", widths=(1, 2, 3), nmax=2)
+    add(S([Opaque("[\\q{\u00e9k}]", S([Alt([L(0xE9), L(0xC9)]), Alt([L("k"), L("K"), L(0x212A)])]))]), "iv", "qstring_latin1_kelvin_icase", widths=(1, 2, 3), nmax=2)
     # quantifiers greedy / lazy / ranges
     add(S([Quant(a, 1, None), b]), "", "plus_then_b")
     add(S([Quant(a, 0, None, False), b]), "", "lazy_star_then_b")
@@ -174,6 +181,37 @@ def native_result(r):
     return (r["m"][0], r["m"][1], tuple(None if c is None else tuple(c) for c in r["caps"]))
 
 
+def safety_violation(dumper, pat, flags, text, start):
+    """C06 on one concrete input: every real entry point (backtracker optimised / unoptimised, PikeVM, the ASCII
+    variants on ASCII text) must return - no panic, abort or time-out in the helper process - and every reported
+    range (match and captures) must satisfy start <= end <= len with both ends on char boundaries.  Returns a
+    description of the first violation or None."""
+    bounds = set()
+    o = 0
+    for ch in text:
+        bounds.add(o)
+        o += len(ch.encode("utf-8"))
+    bounds.add(o)
+    calls = [("find opt", lambda: dumper.find(pat, flags, False, text, start)),
+             ("find no_opt", lambda: dumper.find(pat, flags, True, text, start)),
+             ("pikevm", lambda: dumper.find_pike(pat, flags, False, text, start))]
+    if all(ord(ch) < 0x80 for ch in text):
+        calls += [("find_ascii", lambda: dumper.find_ascii(pat, flags, False, text, start)),
+                  ("pikevm ascii", lambda: dumper.find_pike(pat, flags, False, text, start, ascii=True))]
+    for name, call in calls:
+        r = call()
+        if r.get("crashed") is not None:
+            return "%s: the engine panicked / aborted (helper exit status %s)" % (name, r.get("crashed"))
+        if r.get("timeout") or not r.get("ok") or r.get("m") is None:
+            continue
+        rngs = [tuple(r["m"])] + [tuple(c) for c in r["caps"] if c is not None]
+        for (a, b) in rngs:
+            if not (0 <= a <= b <= o) or a not in bounds or b not in bounds:
+                return "%s: reported range %d..%d is not a valid char-boundary range of the %d-byte haystack" % (name, a, b, o)
+    return None
+
+
+
 STEP_LIMIT = 4000
 STEP_LIMIT_C05 = 60000   # C05 mode: far above what any terminating search needs on <= 3 characters
 
@@ -217,6 +255,15 @@ def run_mode(mode, case, progs, dumper, rng, budget_paths=20000, log=print):
             if res["a"] == res["b"] and all(w == 1 for w in hy.widths):
                 res["a"] = native_result(dumper.find_ascii(pat, case.flags, False, text, hy.off[s0]))
                 res["b"] = native_result(dumper.find_pike(pat, case.flags, False, text, hy.off[s0], ascii=True))
+            out["witnesses"] = out.get("witnesses", 0) + 1
+            return res
+        if mode == "C06":
+            # one representative haystack per behaviour class (path) of the machine; the REAL engines are run on it
+            res["vm"] = vm_run(progs["opt"], hy, ctx, s0)
+            m = ctx.model()
+            text = to_chars(hy, hy.model_bytes(m))
+            v = safety_violation(dumper, pat, case.flags, text, hy.off[s0])
+            res["a"], res["b"] = (("UNSAFE", v), None) if v else (None, None)
             out["witnesses"] = out.get("witnesses", 0) + 1
             return res
         if mode == "C09":
@@ -434,6 +481,9 @@ def confirm_native(mode, case, cex, dumper):
         asc = native_result(dumper.find_ascii(pat, case.flags, no, text, start))
         ref = noopt if no else opt
         return asc != ref, "find_from_ascii %r vs find_from %r%s" % (asc, ref, " (no_opt)" if no else "")
+    if mode == "C06":
+        v = safety_violation(dumper, pat, case.flags, text, start)
+        return v is not None, v or "every entry point returns valid char-boundary ranges"
     if mode == "C09":
         engines = ["bt", "pike"] + (["bta", "pikea"] if all(ord(ch) < 0x80 for ch in text) else [])
         for eng in engines:
@@ -666,7 +716,7 @@ def main(argv):
                                     detail="pattern rejected by the compiler: %s" % rej, leaves=0, queries=0, solver_s=0,
                                     shapes=0, outcomes=[]))
                 continue
-            modes = {"C01": ["C01", "C01n"], "C12": ["C01", "C01n"], "C10": ["C01", "C01n"], "C03": ["C03"], "C04": ["C04"], "C05": ["C05"], "C13": ["C13", "C13n"], "C16": [], "C02": ["C02"], "C09": ["C09"]}[mode_prop]
+            modes = {"C01": ["C01", "C01n"], "C12": ["C01", "C01n"], "C10": ["C01", "C01n"], "C03": ["C03"], "C04": ["C04"], "C05": ["C05"], "C13": ["C13", "C13n"], "C16": [], "C02": ["C02"], "C09": ["C09"], "C06": ["C06"]}[mode_prop]
             if mode_prop in ("C01", "C16") and any(case.names):
                 # C16: group names reported in source order, aligned with the capture slots (compile-side fact)
                 for which in ("opt", "noopt"):
